@@ -232,7 +232,7 @@ func regFile(c *corpus.Cell) string {
 		fmt.Fprintf(&b, "\tvsrc %q\n", c.ImportPath())
 	}
 	b.WriteString(")\n\nfunc init() {\n")
-	for _, ifc := range c.Pkg.Ifaces {
+	for _, ifc := range c.Ifaces() {
 		targs := ""
 		if len(ifc.TypeArgs) > 0 {
 			var ts []string
@@ -245,6 +245,14 @@ func regFile(c *corpus.Cell) string {
 		fmt.Fprintf(&b, "\tvmh.Register(vmh.Cell{ID: %q, Iface: %q, MockName: %q,\n", c.ID+"/"+ifc.Name, ifc.Name, mock)
 		fmt.Fprintf(&b, "\t\tIfaceType: vreflect.TypeOf((*%s%s%s)(nil)).Elem(),\n", q, ifc.Name, targs)
 		fmt.Fprintf(&b, "\t\tNew:       func() any { return &%s%s{} },\n", mock, targs)
+		if len(ifc.Unexported) > 0 {
+			// unexported methods are handed over as method expressions (this file is in the mock's package)
+			b.WriteString("\t\tUnexported: map[string]any{")
+			for _, u := range ifc.Unexported {
+				fmt.Fprintf(&b, "%q: (*%s%s).%s, %q: (*%s%s).%sCalls, ", u, mock, targs, u, u+"Calls", mock, targs, u)
+			}
+			b.WriteString("},\n")
+		}
 		fmt.Fprintf(&b, "\t\tFlags:     vmh.Flags{Stub: %v, SkipEnsure: %v, WithResets: %v, Pkg: %q, Fmt: %q, Alias: %v}})\n",
 			c.Flags.Stub, c.Flags.SkipEnsure, c.Flags.WithResets, c.Flags.Pkg, c.Flags.Fmt, c.Flags.Alias)
 	}
